@@ -371,13 +371,17 @@ func (c reqCase) rawBody() (io.Reader, bool) {
 // A token names the same text wherever it stands (p0 as a user name is the text of the first password).
 var authTexts = map[string]string{"u0": user0, "u1": user1, "p0": pass0, "p1": pass1, "nobody": "nobody", "wrong": "wrong", "any": "whatever", "e": ""}
 
-// credential configurations: 0 none, 1 two users, 2 one user
+// credential configurations: 0 none, 1 two users, 2 one user, 3 one user with an empty password, 4 an empty user name
 func credsTok(k int) string {
 	switch k {
 	case 1:
 		return "u0:p0,u1:p1"
 	case 2:
 		return "u0:p0"
+	case 3:
+		return "u0:e"
+	case 4:
+		return "e:p0"
 	}
 	return "-"
 }
@@ -387,6 +391,10 @@ func credsOfTok(t string) int {
 		return 1
 	case "u0:p0":
 		return 2
+	case "u0:e":
+		return 3
+	case "e:p0":
+		return 4
 	}
 	return 0
 }
@@ -396,6 +404,10 @@ func credsMap(k int) map[string]string {
 		return map[string]string{user0: pass0, user1: pass1}
 	case 2:
 		return map[string]string{user0: pass0}
+	case 3: // a configured user with an EMPTY password
+		return map[string]string{user0: ""}
+	case 4: // an empty user name
+		return map[string]string{"": pass0}
 	}
 	return nil
 }
@@ -1340,6 +1352,28 @@ func sysCases() []reqCase {
 		}
 		for _, a := range svSits {
 			out = append(out, reqCase{sv: sv, creds: a.cr, auth: a.au, method: "GET", segs: []string{"nope"}, rpc: "ok", body: "-"})
+			out = append(out, reqCase{sv: sv, creds: a.cr, auth: a.au, method: "POST", segs: []string{"pins", "c3"},
+				query: []qparam{{key: "replication-min", class: 'i', val: "0"}}, rpc: "ok", body: "-"})
+		}
+	}
+	// credentials-map corner cases as configurations of the sweep: a configured user with an EMPTY password (3: only
+	// user0 with the empty password gets through - an empty configured password is not a wildcard, and no header is
+	// not "the empty pair"), an empty user name (4: a name like any other). Every template with its method, on the
+	// HTTP listener and on the libp2p-tunnelled one.
+	cornerSits := []sit{{3, "n"}, {3, "m0"}, {3, "m2"}, {3, "b.u0.e"}, {3, "l.u0.e"}, {3, "b.u0.any"}, {3, "b.u0.p0"}, {3, "b.e.e"}, {3, "b.nobody.e"}, {3, "b.e.u0"},
+		{4, "n"}, {4, "m0"}, {4, "m2"}, {4, "b.e.p0"}, {4, "b.e.e"}, {4, "b.e.wrong"}, {4, "b.u0.p0"}, {4, "b.p0.e"}}
+	for _, sv := range []string{"000", p2pSv[0]} {
+		for ti, t := range templates {
+			for _, a := range cornerSits {
+				c := reqCase{sv: sv, creds: a.cr, auth: a.au, method: t.method, segs: fill(r.Fork(uint64(9500+ti)), t, -1), rpc: "ok", body: "-"}
+				if t.body {
+					c.body = "pj.p1"
+				}
+				out = append(out, c)
+			}
+		}
+		for _, a := range cornerSits {
+			out = append(out, reqCase{sv: sv, creds: a.cr, auth: a.au, pf: true, method: "OPTIONS", segs: []string{"id"}, rpc: "ok", body: "-"})
 			out = append(out, reqCase{sv: sv, creds: a.cr, auth: a.au, method: "POST", segs: []string{"pins", "c3"},
 				query: []qparam{{key: "replication-min", class: 'i', val: "0"}}, rpc: "ok", body: "-"})
 		}
